@@ -818,7 +818,7 @@ func main() {
 			{"ttlmc-1key", planTTLMC, 1, 1, 6, false, empty},
 			{"ttlmc-1key-rpc", planTTLMC, 1, 1, 6, true, empty},
 			{"ttlmc-2txns", planTTLMC, 1, 2, 7, false, empty},
-			{"ttlmc-2keys", planTTLMC, 2, 1, 4, false, empty},
+			{"ttlmc-2keys", planTTLMC, 2, 1, 5, false, empty},
 		}
 	} else {
 		passes = []pass{
